@@ -53,6 +53,18 @@ func (lockH) Generate(property string, seed uint64, tier string) *Case {
 	}
 	n := 4 + g.IntN(8)
 	var ops []json.RawMessage
+	if property == "C19" && g.IntN(5) == 0 {
+		// the lock context where it is used: a real cluster operation under a workload lock
+		cfg.Backend = "calcium"
+		for i := 0; i < 2+g.IntN(3); i++ {
+			op := lockOp{Kind: "lock", GapMs: g.IntN(4000)}
+			if g.IntN(3) != 0 {
+				op.Loss = "revoke"
+			}
+			ops = append(ops, mustJSON(op))
+		}
+		return &Case{Plan: simrt.Plan{Policy: []string{"random", "sticky", "fifo"}[g.IntN(3)], CrashAt: -1}, Cfg: mustJSON(cfg), Ops: ops}
+	}
 	for i := 0; i < n; i++ {
 		op := lockOp{Who: g.IntN(cfg.Contenders), Kind: "lock", HoldMs: g.IntN(cfg.TTLSec * 400), GapMs: g.IntN(3000)}
 		if g.IntN(3) == 0 {
@@ -163,6 +175,10 @@ type lockEventRec struct {
 func (lockH) Execute(c *Case, res *Result) {
 	var cfg lockCfg
 	_ = json.Unmarshal(c.Cfg, &cfg)
+	if cfg.Backend == "calcium" {
+		runCalciumLockLoss(c, res, cfg)
+		return
+	}
 	sim := simrt.New(c.Seed, c.Plan)
 	sim.KeepTrace = traceWanted
 	verifrt.Permute = sim.Permute
